@@ -109,7 +109,7 @@ func c14Isolation(r *core.Run, scheduled bool) {
 			}
 		}
 	}
-	w := world.Run(r, world.Options{Cooperative: scheduled, MaxSteps: 600000}, func(w *world.World) {
+	w := world.Run(r, world.Options{Cooperative: scheduled, MaxSteps: 900000, YieldOnLog: true}, func(w *world.World) {
 		cfg := &config.Config{Server: &config.ServerConfig{TokenCheckInterval: 2, TokenCheckTimeout: 1, TokenCacheSeconds: cacheS}, Clients: map[string]*config.ClientConfig{}}
 		idents = addSigningKeys(w, cfg, []string{"tokA", "tokB"}, "r1")
 		cfg.Keys["rsa2"].Roles = []string{"r1", "r2"}
@@ -219,7 +219,7 @@ func c14Isolation(r *core.Run, scheduled bool) {
 			n := 3 + t.Choose(8, "nreqs")
 			for i := 0; i < n; i++ {
 				id++
-				p := plan{kind: core.Pick(t, "kind", "sign", "sign", "sign", "list", "getkey", "health", "sign")}
+				p := plan{kind: core.Pick(t, "kind", "sign", "sign", "sign", "list", "getkey", "health", "sign", "refused")}
 				p.c = genSignCase(t, fmt.Sprintf("%dy%d", r.No, id), c14Mods)
 				p.key = pickKey(t, p.c)
 				p.think = time.Duration(t.Choose(300, "think")) * 10 * time.Millisecond
@@ -288,6 +288,15 @@ func c14Isolation(r *core.Run, scheduled bool) {
 						rs.Method, rs.Path, rs.Query, rs.Body = "POST", "/sign", p.c.query(p.key), up
 						if scheduled {
 							rs.ChunkSize = func(rem int) int { return 1 + t.Choose(65536, "chunk") }
+						}
+					case "refused":
+						// a sign request the server has to refuse: a digest or a signature
+						// type nobody knows, spelled differently in every request
+						rs.Method, rs.Path, rs.Query, rs.Body = "POST", "/sign", p.c.query(p.key), []byte("never looked at")
+						if rq.ID%2 == 0 {
+							rs.Query.Set("digest", c14Marker(rq.ID))
+						} else {
+							rs.Query.Set("sigtype", c14Marker(rq.ID))
 						}
 					case "list":
 						rs.Path = "/list_keys"
@@ -415,6 +424,18 @@ func c14Isolation(r *core.Run, scheduled bool) {
 		}
 		desc := fmt.Sprintf("#%d by %s(%s): %s %s key=%s digest=%s flags=%v file=%s -> %d", rq.ID, rq.Client, rq.Ident, rq.Kind, c.Mod, rq.Key, c.Digest, c.Flags, c.File, rq.Status)
 		switch rq.Kind {
+		case "refused":
+			r.Sig("refused")
+			if rq.Status < 400 || rq.Status > 499 {
+				r.Failf("C14.wrong-result", "refused", "a sign request with an unknown digest or signature type was answered %d: %s", rq.Status, desc)
+			}
+			// alone, the refusal can mention nothing but this request's own parameters
+			for _, o := range reqs {
+				if o != rq && o.Kind == "refused" && bytes.Contains(rq.Body, []byte(c14Marker(o.ID))) {
+					r.Failf("C14.mixed-up-response", "refused", "the refusal of #%d (%s) quotes %q, the parameter of request #%d by %s: %s", rq.ID, c14Marker(rq.ID), c14Marker(o.ID), o.ID, o.Client, firstLine(rq.Body))
+				}
+			}
+			r.Probe("refused-requests-overlapping-others")
 		case "health":
 			r.Sig("health")
 			if !ok {
@@ -568,3 +589,6 @@ func c14Isolation(r *core.Run, scheduled bool) {
 	}
 	_ = os.Getpid
 }
+
+// c14Marker is the parameter value only request id uses.
+func c14Marker(id int) string { return fmt.Sprintf("zq%dx", id) }
